@@ -9,6 +9,7 @@ mod lifew;
 mod bitmap;
 mod copyw;
 mod guest;
+mod interpose;
 mod pure;
 mod rng;
 mod slice;
@@ -29,6 +30,21 @@ pub fn overflow_checks_on() -> bool {
 
 fn main() {
     let args: Vec<String> = std::env::args().collect();
+    if args.len() > 1 && args[1] == "selftest" {
+        // the interposed mmap/munmap are the ones the crate calls: a region dropped normally is released once, a second
+        // munmap of its range is seen as a double release
+        use vm_memory::{GuestAddress, GuestMemory, GuestMemoryMmap, GuestMemoryRegion};
+        let r = GuestMemoryMmap::<()>::from_ranges(&[(GuestAddress(0), 8192)]).unwrap();
+        let (p, l) = (r.get_host_address(GuestAddress(0)).unwrap() as usize, 8192usize);
+        let _ = r.iter().next().map(|x| x.len());
+        let _ = interpose::take_double_unmaps();
+        drop(r);
+        let once = interpose::take_double_unmaps().0;
+        unsafe { libc::munmap(p as *mut libc::c_void, l) };
+        let twice = interpose::take_double_unmaps().0;
+        println!("selftest double-unmaps after drop={} after second munmap={}", once, twice);
+        std::process::exit(if once == 0 && twice == 1 { 0 } else { 1 });
+    }
     if args.len() < 5 {
         eprintln!("usage: vmverif <world> <seed> <n> <outdir> [opts]");
         std::process::exit(2);
